@@ -133,6 +133,12 @@ func runC07(e *Env) {
 		// reported (the same rules decide C01's and C03's "every listed syscall")
 		checkNoDrop(e, m, ts)
 		checkMerge(e, m)
+		// "a name duplicated within a group", "listed both with and without conditions in one group": the unit these rules
+		// are applied to is the policy's own group - groups that were merged or split before validation are judged by
+		// another unit, and policies free of the listed defects are refused (or defective ones accepted)
+		checkGroupUnit(e, m, "E1.unit", "Policy.Assemble/validated-group-is-the-policy's",
+			"the group that is validated and compiled is the element of a range over p.Syscalls",
+			"the group that is validated and compiled is not an element of the policy's own p.Syscalls: the within-a-group rules (duplicate name, conditional and unconditional) are applied to a different unit than the policy's group, so a policy free of the listed defects can be refused")
 		classes := map[string]int{}
 		for _, b := range ts.Blocks {
 			ifi, ok := flow.LastIf(b)
